@@ -247,6 +247,11 @@ func (s *Session) bind(o *Config) {
 		return
 	}
 
+	if iq.XMLName.Local != "iq" || iq.Type != stanza.IQTypeResult {
+		s.err = errors.New("iq bind result expected, got " + iq.XMLName.Local + " of type " + string(iq.Type))
+		return
+	}
+
 	// TODO Check all elements
 	switch payload := iq.Payload.(type) {
 	case *stanza.Bind:
@@ -292,6 +297,10 @@ func (s *Session) rfc3921Session() {
 
 		if s.err = s.transport.GetDecoder().Decode(&iq); s.err != nil {
 			s.err = errors.New("expecting iq result after session open: " + s.err.Error())
+			return
+		}
+		if iq.XMLName.Local != "iq" || iq.Type != stanza.IQTypeResult {
+			s.err = errors.New("expecting iq result after session open, got " + iq.XMLName.Local + " of type " + string(iq.Type))
 			return
 		}
 	}
